@@ -688,6 +688,43 @@ func subTailLogic() mon.Sub {
 					}
 				}
 			}
+			// the same compressor behind the frame-level helpers - in a process where OTHER helpers (the default one,
+			// one with another compressor) are at work before and after: each Helper runs on its own compressor
+			others := []wsflate.Helper{wsflate.DefaultHelper, {Compressor: compressorCtor(1, c.I%2 == 0, false), Decompressor: func(r io.Reader) wsflate.Decompressor { return flate.NewReader(r) }}}
+			other := others[c.I/len(suffixes)%2]
+			otherOK := func(when string) bool {
+				om, err := other.Compress(msg)
+				var back []byte
+				if err == nil {
+					back, err = other.Decompress(om)
+				}
+				if err != nil || !bytes.Equal(back, msg) {
+					c.Fail("tail/helper/other-helper-"+when, fmt.Sprintf("a conforming Helper used %s one with an application-supplied compressor does not round-trip the message (err=%v)", when, err), det)
+					return false
+				}
+				return true
+			}
+			if !otherOK("before") {
+				return
+			}
+			hl := wsflate.Helper{Compressor: func(w io.Writer) wsflate.Compressor { return &fakeCompressor{w: w, suffix: sfx, chunk: chunk} }, Decompressor: wsflate.DefaultHelper.Decompressor}
+			c.Count(2)
+			hm, herr := hl.Compress(msg)
+			cf, cerr := hl.CompressFrame(ws.NewBinaryFrame(msg))
+			det["helper_compress_err"], det["helper_compressframe_err"] = fmt.Sprint(herr), fmt.Sprint(cerr)
+			if good {
+				want := stream[:len(stream)-4]
+				if herr != nil || cerr != nil || !bytes.Equal(hm, want) || !bytes.Equal(cf.Payload, want) {
+					c.Fail("tail/helper/good-compressor", "Helper.Compress / CompressFrame with a compressor that ends its flush with 00 00 ff ff: error, or not the compressor's output without the tail", det)
+					return
+				}
+			} else if !bytes.HasSuffix(stream, tail) && (herr == nil || cerr == nil) {
+				c.Fail("tail/helper/bad-compressor-accepted", fmt.Sprintf("Helper.Compress (err=%v) / CompressFrame (err=%v): a compressor that does not end its flush with 00 00 ff ff was not reported", herr, cerr), det)
+				return
+			}
+			if !otherOK("after") {
+				return
+			}
 			c.Classf("sfx=%x chunk=%d msg=%d", sfx, chunk, len(msg)/1000)
 			c.Sample(det)
 		},
